@@ -101,7 +101,7 @@ inline void waitTimerQuiescent() {
             struct timespec t {};
             clock_gettime(CLOCK_MONOTONIC, &t);
             if (t0.tv_sec == 0) t0 = t;
-            else if (t.tv_sec - t0.tv_sec > 30) {
+            else if (t.tv_sec - t0.tv_sec > 12) {
                 static const char msg[] = "GCSIM-FATAL: timer_thread_blocked_forever\n";
                 ssize_t ignored = write(2, msg, sizeof msg - 1);
                 (void)ignored;
